@@ -55,7 +55,14 @@ func (c *MemEnd) Read(p []byte) (n int, err error) {
 }
 
 func (c *MemEnd) Write(p []byte) (n int, err error) {
-	c.mon.Do("net.Write", c.ID, nil, func() {
+	// application answers are told apart from base-protocol traffic and from requests: a peer may retransmit them
+	kind := "net.Write"
+	if len(p) >= 8 {
+		if code := uint32(p[5])<<16 | uint32(p[6])<<8 | uint32(p[7]); p[4]&0x80 == 0 && code != 257 && code != 280 && code != 282 {
+			kind = "net.WriteAns"
+		}
+	}
+	c.mon.Do(kind, c.ID, nil, func() {
 		if c.Closed {
 			err = errors.New("use of closed network connection")
 			return
@@ -65,6 +72,10 @@ func (c *MemEnd) Write(p []byte) (n int, err error) {
 			return
 		}
 		c.Peer.buf = append(c.Peer.buf, p...)
+		for k := vs.TakeDup(); k > 0; k-- {
+			// DUP deviation: the peer retransmits this answer (the copies follow it immediately)
+			c.Peer.buf = append(c.Peer.buf, p...)
+		}
 		c.Sent = append(c.Sent, p...)
 		c.Writes++
 		c.LastWriteAt = time.Now()
